@@ -265,6 +265,20 @@ impl World for C09World {
         };
         let mut a = fam(&mut r);
         let mut b = fam(&mut r);
+        if !stars && r.chance(1, 40) {
+            // crossing combs: k long horizontal bars against m long vertical bars (many divisions per edge)
+            let (k, m) = (4 + r.below(21) as i64, 4 + r.below(21) as i64);
+            let bars = |n: i64, len: i64, horizontal: bool| -> Operand {
+                (0..n).map(|i| {
+                    let (a0, a1, b0, b1) = (-1.0, (2 * len + 1) as f64, (2 * i) as f64, (2 * i + 1) as f64);
+                    let ring = if horizontal { vec![[a0, b0], [a1, b0], [a1, b1], [a0, b1], [a0, b0]] } else { vec![[b0, a0], [b1, a0], [b1, a1], [b0, a1], [b0, a0]] };
+                    vec![ring]
+                }).collect()
+            };
+            a = bars(k, m, true);
+            b = bars(m, k, false);
+            if r.chance(1, 2) { std::mem::swap(&mut a, &mut b); }
+        }
         if !stars && r.chance(1, 12) {
             // many small parts (thresholds such as "only when there are at least N parts")
             let many = |r: &mut Rng| {
@@ -327,7 +341,7 @@ impl World for C09World {
                 // touching, near, or so far away that float spacing is comparable to the feature size
                 let huge = r.chance(1, 8);
                 let gap = if huge { (2.0f64).powi(*r.pick(&[20, 25, 27, 40, 50, 54])) } else { *r.pick(&[0.0, 1.0, 7.0]) };
-                let slide = if huge { 0.0 } else { r.range(-(g / 2), g / 2) as f64 };
+                let slide = if huge { if r.chance(1, 2) { gap } else { 0.0 } } else { r.range(-(g / 2), g / 2) as f64 };
                 let b_near = place_beyond(&b, geom::bbox(&a).unwrap(), side, 1.0, slide);
                 if huge {
                     b = geom::scale(&b, 8.0);
@@ -358,7 +372,9 @@ impl World for C09World {
                 let (ba, bb) = (geom::bbox(&a).unwrap(), geom::bbox(&b).unwrap());
                 let all = (ba.0.min(bb.0), ba.1.min(bb.1), ba.2.max(bb.2), ba.3.max(bb.3));
                 let far0 = far.clone();
-                let mut far = place_beyond(&far, all, side, gap, if huge { 0.0 } else { r.range(-(g / 2), g / 2) as f64 });
+                // (a far part may be far along both axes: the slide is then as large as the gap)
+                let slide_far = if huge && r.chance(1, 2) { gap } else { 0.0 };
+                let mut far = place_beyond(&far, all, side, gap, if huge { slide_far } else { r.range(-(g / 2), g / 2) as f64 });
                 if huge {
                     let shift = (geom::bbox(&far).unwrap().0 - geom::bbox(&far0).unwrap().0, geom::bbox(&far).unwrap().1 - geom::bbox(&far0).unwrap().1);
                     match geom::translate_exact(&far0, shift.0, shift.1) {
